@@ -199,19 +199,29 @@ HOSTILE_NAMES = ["../evil", "/abs/evil", "..", ".", "a/../../evil", "..\\evil", 
 def hostile(run, tier):
     rng = run.rng
     names = HOSTILE_NAMES if tier == "thorough" else HOSTILE_NAMES[:6] + [HOSTILE_NAMES[-1]]
+    variants = []
     for nm in names:
         for meta in (["poetry"] if tier == "quick" else ["none", "poetry", "setup"]):
+            variants.append((nm, meta, None, [nm]))
+    # every option that changes which names become path components: all tags of an operation (not only the first), with the
+    # hostile name in a secondary position, and operation / tag names that only differ from a benign one
+    for nm in names[:4] + [names[-1]]:
+        for cfg in ({"generate_all_tags": True}, {"generate_all_tags": True, "use_path_prefixes_for_title_model_names": False}):
+            variants.append((nm, "none" if tier == "quick" else "poetry", cfg, ["pets", nm, "/abs/" + nm.strip("/"), "admin"]))
+    for nm, meta, cfg, tags in variants:
+        if True:
             doc = impl.base_doc(info={"title": nm, "version": "1"},
                                 components={"schemas": {nm: {"type": "object", "title": nm, "properties": {nm: {"type": "string", "enum": [nm, "x"]}}}}},
-                                paths={"/p": {"get": {"operationId": nm, "tags": [nm], "responses": {"200": {"description": "ok"}}}}})
+                                paths={"/p": {"get": {"operationId": nm, "tags": tags, "responses": {"200": {"description": "ok"}}}},
+                                       "/q": {"get": {"operationId": "benign", "tags": list(reversed(tags)), "responses": {"200": {"description": "ok"}}}}})
             root = Path(tempfile.mkdtemp(prefix="opc_hh_"))
             try:
                 (root / "sentinel.txt").write_text("S")
                 cwd = root / "cwd"
                 cwd.mkdir()
                 # (a) explicit output path
-                g = impl.Gen(doc, meta=meta, root=root)
-                case = {"hostile_name": nm, "meta": meta}
+                g = impl.Gen(doc, meta=meta, root=root, cfg=cfg)
+                case = {"hostile_name": nm, "meta": meta, "cfg": cfg, "tags": tags}
                 run.note_case(case, kind="hostile-name")
                 listing = sorted(str(p.relative_to(root)) for p in root.rglob("*") if p.is_file())
                 outside = [p for p in listing if not (p.startswith("out/") or p in ("doc.json", "sentinel.txt"))]
@@ -230,10 +240,10 @@ def hostile(run, tier):
                     from openapi_python_client import generate
                     from openapi_python_client.config import Config, ConfigFile, MetaType
                     import contextlib, io
-                    cfg = Config.from_sources(ConfigFile(post_hooks=[]), MetaType(meta), root / "doc.json", "utf-8", False, output_path=None)
+                    cfgo = Config.from_sources(ConfigFile(post_hooks=[], **(cfg or {})), MetaType(meta), root / "doc.json", "utf-8", False, output_path=None)
                     try:
                         with contextlib.redirect_stdout(io.StringIO()):
-                            generate(config=cfg)
+                            generate(config=cfgo)
                     except Exception as e:  # crash is C06's business; here only confinement matters
                         pass
                 finally:
